@@ -1,6 +1,7 @@
 import FeatModel.Model.Proto
 import FeatModel.Model.GridTransfer
 import FeatModel.Model.GlobalTransfer
+import FeatModel.Model.TransferNested
 /-! line-protocol driver for the C18 models (invert_matrix, grid-transfer assembly on dumped ingredients,
 CSR transposition and LAFEM::Transfer) -/
 open FeatModel FeatModel.Proto FeatModel.GT
@@ -41,17 +42,18 @@ def fineCellP (npts : Nat) : P FineCell := do
   pure { fmap := fmap, pts := pts }
 
 /-- the mesh-indexed ingredients + the two permutation arrays + the layout of the prolongation matrix -/
-def dumpP : P (TwoLevel × List Nat × List Nat) := do
+def dumpP : P (TwoLevel × List Nat × List Nat × List Rat) := do
   let t ← tok
   if t ≠ "D" then throw "expected D"
   let nf ← nat; let nc ← nat; let ncells ← nat; let nchild ← nat; let nfine ← nat; let npts ← nat
   let _ ← tok; let cp ← natList
   let _ ← tok; let fp ← natList
   let _ ← tok; let ptr ← natList; let ind ← natList
+  let _ ← tok; let refc ← ratList
   let coarse ← many ncells (coarseCellP nchild npts)
   let fine ← many nfine (fineCellP npts)
   pure ({ nf := nf, nc := nc, nchild := nchild, npts := npts, coarse := coarse, fine := fine,
-          coarsePerm := cp, fineInvPerm := fp }, ptr, ind)
+          coarsePerm := cp, fineInvPerm := fp }, ptr, ind, refc)
 
 /-- skip the configuration tokens: shape space cubature level perm_c perm_f affine-list offset-list -/
 def skipCfg : P Unit := do
@@ -107,6 +109,11 @@ def feCase (d : Dump) (ptr ind : List Nat) (x y : List Rat) : Except Fail String
   let traw := truncRaw d tl
   let td ← optAbort (scaleRows d.nf traw wt)
   let r := transposeDense d.nf d.nc pd
+  -- the layout is COMPUTED (C16's symbolic assembly on the dof-mappings); the dumped row_ptr/col_ind of the real
+  -- matrix are only compared with it through the printed arrays
+  let (ptr, ind) := match layout2lvl d with
+    | some g => (g.domainPtr, g.imageIdx)
+    | none => (ptr, ind)
   let pc := csrOfDense d.nf d.nc ptr ind pd
   let rc := (Transfer.ofProl pc (FeatModel.LA.Csr.entryFree d.nc d.nf)).rest
   -- layout of the truncation matrix = transposed layout of the prolongation (`loc_trunc.transpose(loc_prol)`)
@@ -150,6 +157,20 @@ def handle : P String := do
     | some xp, some xr, some xt =>
       pure s!"R {showCsr t.rest} XP {showVec xp.toList} XR {showVec xr.toList} XT {showVec xt.toList}"
     | _, _, _ => pure "ABORT"
+  | "childmap" =>
+    let shape ← tok
+    let key : Option (FeatModel.FE.Kind × Nat) :=
+      match shape with
+      | "line" => some (.H, 1) | "quad" => some (.H, 2) | "hexa" => some (.H, 3) | "tria" => some (.S, 2)
+      | _ => none
+    match key with
+    | none => pure "BAD-OP"
+    | some (k, dim) =>
+      let xi ← many dim rat
+      let nch := numChildren k dim
+      let pts := (List.range nch).flatMap fun c => childPoint k dim c xi
+      let w : Rat := 1 / (nch : Nat)
+      pure s!"CM {showRatsL pts} {showRatsL (List.replicate nch w)}"
   | "gxfer" =>
     let prol ← csrP; let trunc ← csrP
     let x ← ratList; let y ← ratList
@@ -166,20 +187,38 @@ def handle : P String := do
     if which < 3 ∧ g.sendAllowed then pure "RETURNED" else pure "ABORT"
   | "cert" =>
     -- certificates (hypotheses of C18.prolongation_exact / C18.truncation_prolongation_identity) of an `fe` case
-    skipCfg
+    let shapeName ← tok; let spaceName ← tok; let _ ← tok; let _ ← nat; let _ ← nat; let _ ← nat
+    let _ ← ratList; let _ ← ratList
     let _ ← tok; let _ ← ratList
     let _ ← tok; let _ ← ratList
-    let (m, _, _) ← dumpP
+    let (m, _, _, refc) ← dumpP
     let d := m.toDump
     let b (x : Bool) := if x then "1" else "0"
+    -- parametric Lagrange families whose nestedness is derived from the element polynomials (C18.nested_reference_*):
+    -- the dumped basis values must be the table values at the reference points (PARAM)
+    let famKey : Option (FeatModel.FE.Fam × FeatModel.FE.Kind × Nat) :=
+      match shapeName, spaceName with
+      | "quad", "l1" => some (.L1, .H, 2) | "quad", "l2" => some (.L2, .H, 2)
+      | "tria", "l1" => some (.L1, .S, 2) | "tria", "l2" => some (.L2, .S, 2)
+      | "hexa", "l1" => some (.L1, .H, 3) | "hexa", "l2" => some (.L2, .H, 3)
+      | _, _ => none
+    let param : String :=
+      match famKey with
+      | none => "-"
+      | some (f, k, dim) =>
+        match FeatModel.FE.tabOf f k dim with
+        | none => "-"
+        | some t =>
+          let xis := (List.range m.npts).map fun q => (List.range dim).map fun a => refc.getD (q * dim + a) 0
+          b (paramB t k dim xis d)
     match (do let locs ← localProls d; let pd ← optAbort (prolDirect d locs); pure pd : Except Fail Mat) with
     | .error e => pure (failStr e)
-    | .ok pd => pure s!"CERT {b (nestedB d)} {b (consB d pd)} {b (intB d)} {b (mapsB d)}"
+    | .ok pd => pure s!"CERT {b (nestedB d)} {b (consB d pd)} {b (intB d)} {b (mapsB d)} {param}"
   | "fe" =>
     skipCfg
     let _ ← tok; let x ← ratList
     let _ ← tok; let y ← ratList
-    let (m, ptr, ind) ← dumpP
+    let (m, ptr, ind, _) ← dumpP
     let d := m.toDump
     if x.length ≠ d.nc ∨ y.length ≠ d.nf then pure "BAD-VECTOR-SIZE"
     else match feCase d ptr ind x y with
